@@ -10,22 +10,30 @@ PROP = dict(
           "generated earlier indices against an independent BOLT-3 derivation. "
           "Non-trivial = the inserted index has >=2 trailing zeros (>=2 lower "
           "buckets verified and superseded) or the secret was corrupted. Distinct "
-          "= distinct (seed, index, mode)."),
+          "= distinct (seed, index, mode). (b) release rule: in the C01-C03 channel machine (rapid schedules with "
+          "cuts/reloads) every revoke_and_ack handed out (first time or retransmitted on reconnect) is checked "
+          "against a fresh read of the database (newer peer-signed commitment durable), the own derivation chain "
+          "(secret h, point h+2) and the no-gap/no-repeat rule; non-trivial = >=2 releases with a cut or "
+          "retransmission in the schedule."),
     assumptions=[
         "SHA-256 collisions do not occur (a corrupted secret that still derives the stored lower buckets is treated as impossible)",
         "crafted store states (white-box construction of the bucket array) are validated against real sequential insertion only for n <= N of the exhaustive part",
     ],
+    also=["C01"],
     jobs=dict(
         quick=[
             job("shachain", "^TestVerifC06Exhaustive$", ["TestVerifC06Exhaustive"], 3, shards=2,
                 env=dict(VERIF_C06_N=4096)),
             job("shachain", "^TestVerifC06Structural$", ["TestVerifC06Structural"], 4000, shards=4),
+            job("lnwallet", "^TestVerifC06Release$", ["TestVerifC06Release"], 40, shards=6, env=dict(VERIF_STEPS=40)),
         ],
         thorough=[
             job("shachain", "^TestVerifC06Exhaustive$", ["TestVerifC06Exhaustive"], 2, shards=8,
                 env=dict(VERIF_C06_N=65536), timeout=1500),
             job("shachain", "^TestVerifC06Structural$", ["TestVerifC06Structural"], 60000, shards=16,
                 timeout=1500),
+            job("lnwallet", "^TestVerifC06Release$", ["TestVerifC06Release"], 300, shards=16, timeout=2400,
+                env=dict(VERIF_STEPS=100)),
         ],
     ),
 )
